@@ -54,7 +54,7 @@ theorem embedded_tree_is_input_tree (t0 : RawTree) (cfg : LevelLoop.Config)
     (∀ l n, t0.dropCells.parents l n = t0.parents l n) ∧
     (∀ l n al, t0.dropCells.ancestorAt l n al = t0.ancestorAt l n al) ∧
     (∀ l n, t0.dropCells.asLeaves l n = t0.asLeaves l n) := by
-  have w := WF_of_validate hval hN hd
+  have w := RawTree.WF.of_validate hval hd
   obtain ⟨w', h1, h2, h3, h4, h5, h6, h7⟩ := C10.drop_cells_preserves t0 w
   have hs := strict_of_validate w'.valid
   have he := blob_tree_eq t0 cfg nm hm nR out hd.levelKeys
@@ -115,7 +115,7 @@ theorem embedded_markers_are_used (t0 t : RawTree) (cfg : LevelLoop.Config)
     have hs' := hs
     rw [stage_eq_stage_runTree hrun] at hs'
     obtain ⟨c, cons, hcache, hcons, hused, hser⟩ := stage_plain_inv t _ R Q m s hs'
-    have w := WF_runTree (WF_of_validate hval hN hd) hrun
+    have w := WF_runTree (RawTree.WF.of_validate hval hd) hrun
     have hT := treeWF_of_WF w
     obtain ⟨hkeys, hrep⟩ := serialize_spec t c s.reported hser
     obtain ⟨hukeys, huass⟩ := usedOf_spec c cons s.used hused
